@@ -5,6 +5,7 @@ import DispatchVerif.Core.Base32P
 import DispatchVerif.Core.Base32HexP
 import DispatchVerif.Core.Utf8F
 import DispatchVerif.Core.Utf16P
+import DispatchVerif.Core.Utf16F
 import DispatchVerif.Core.QueueP
 import DispatchVerif.Core.DataP
 import DispatchVerif.Core.TimerP
@@ -43,7 +44,15 @@ def stage1 (fmt : String) (rs : List (List Nat)) : TR :=
   else if fmt = "b32" then one ((B32.decRegions rs {}).map (·.out))
   else if fmt = "b32hex" then one ((B32H.decRegions rs {}).map (·.out))
   else if fmt = "utf16le" ∨ fmt = "utf16be" then
-    match Utf16P.fromUtf16 (fmt = "utf16be") rs with
+    -- the code-shaped model and the position-shaped one (the fragmentation theorem is about the latter) must agree
+    let a := Utf16P.fromUtf16 (fmt = "utf16be") rs
+    let b := Utf16F.fromUtf16F (fmt = "utf16be") rs.flatten (rs.map List.length)
+    let same := match a, b with
+      | .ok u _ _, .ok v _ => u == v
+      | .fail _, .fail => true
+      | _, _ => false
+    if !same then .bytes [[77, 79, 68, 69, 76, 83]] else
+    match a with
     | .ok out _ _ => .bytes (if out.isEmpty then [] else [out])
     | .fail _ => .null
     | .oob _ => .oob
